@@ -28,6 +28,8 @@ def resolve(w, a):
     if "proxy" in a:
         x, i = a["proxy"]
         return w.proxy(x, i)
+    if "held" in a:  # a collection the caller built earlier (at seed time) and still holds
+        return w.held[a["held"]]
     if "gen" in a:  # a one-shot iterator
         return (y for y in [resolve(w, x) for x in a["gen"]])
     if "list" in a:
@@ -89,6 +91,9 @@ def _domain(w, d, acc, limits):
         yield from _domain(w, limits.get("clone_kinds", "NLD"), acc, limits)
     elif tag == "elem":
         yield from _domain(w, limits.get("elem_kinds", FIRST), acc, limits)
+    elif tag == "held":
+        for i in range(len(w.held)):
+            yield {"held": i}
     elif tag == "count":
         for v in limits.get("counts", (None, 1, 2)):
             yield lit(v)
@@ -286,6 +291,7 @@ def build_ops():
     _op("wire.disconnect_pin", ["W", ("pin",)], lambda x, p: x.disconnect_pin(p), ("_pins", "_wire"))
     _op("wire.disconnect_pins_from", ["W", ("subsets", "pin", 2, "list")], lambda x, ps: x.disconnect_pins_from(ps), ("_pins", "_wire"))
     _op("wire.disconnect_pins_from.set", ["W", ("subsets", "pin", 2, "set")], lambda x, ps: x.disconnect_pins_from(ps), ("_pins", "_wire"))
+    _op("wire.disconnect_pins_from.held", ["W", ("held",)], lambda x, ps: x.disconnect_pins_from(ps), ("_pins", "_wire"))
     _op("wire.pins=", ["W", ("reorder", "pins", "IO")], _setattr("pins"), ("_pins",))
     # instance
     _op("instance.reference=", ["X", "D"], _setattr("reference"), ("_reference", "_references", "_pins", "_wire"))
@@ -337,4 +343,6 @@ def _fmt(a):
         return "(x for x in [" + ", ".join(_fmt(x) for x in a["gen"]) + "])"
     if "set" in a:
         return "{" + ", ".join(_fmt(x) for x in a["set"]) + "}"
+    if "held" in a:
+        return "held[%d]  # collection built by the seed" % a["held"]
     return repr(a)
